@@ -25,7 +25,8 @@ import (
 //   - a value written with setItem under a key is what getItem under the same key decodes, with
 //     gob's rule that zero-valued struct fields are not transmitted (they keep whatever the
 //     destination held before)
-//   - an entry written with a TTL stops being visible when the TTL has elapsed
+//   - an entry written with a TTL stops being visible at some instant in the last second before the TTL has elapsed
+//     (badger stores expiry instants in whole seconds)
 //   - no time passes between the clock readings of one store method (the ghost clock value of the
 //     last time.Now() is the instant the transaction sees)
 
@@ -299,8 +300,12 @@ func init() {
 		},
 		badgerDrv + ".setExpiringItem": func(vc *VC, st *State, c *ssa.CallCommon, args []Value, pos string) Value {
 			ttl := vc.term(st, args[3], "ttl")
-			// badger: a non-positive TTL means the entry does not expire
-			exp := Ite(Bin(sortBool, ">", ttl, IntLit(0)), Bin(sortInt, "+", st.clock, ttl), IntLit(0))
+			// badger keeps the expiry instant in whole seconds (Entry.WithTTL: uint64(now.Add(ttl).Unix())): the entry
+			// disappears somewhere in the second before now+ttl. A non-positive TTL means the entry does not expire.
+			e := vc.fresh("expiry", sortInt)
+			due := Bin(sortInt, "+", st.clock, ttl)
+			st.assume(And(Bin(sortBool, ">", e, Bin(sortInt, "-", due, IntLit(1000000000))), Bin(sortBool, "<=", e, due)))
+			exp := Ite(Bin(sortBool, ">", ttl, IntLit(0)), e, IntLit(0))
 			return kvWrite(vc, st, c, args, exp)
 		},
 		badgerDrv + ".hasKey": func(vc *VC, st *State, c *ssa.CallCommon, args []Value, pos string) Value {
